@@ -51,6 +51,14 @@ Print Assumptions C10_F04_undeclared_variable.
 Theorem C10_F05_unknown_attribute : forall p, has_fault_unknown_attribute p = true -> validate p <> Ok [].
 Proof. exact unknown_attribute_rejected. Qed.
 Print Assumptions C10_F05_unknown_attribute.
+Theorem C10_F06_literal_missing_attribute : forall p,
+  has_fault_literal_missing_attribute p = true -> validate p <> Ok [].
+Proof. exact literal_missing_attribute_rejected. Qed.
+Print Assumptions C10_F06_literal_missing_attribute.
+Theorem C10_F07_literal_unknown_attribute : forall p,
+  has_fault_literal_unknown_attribute p = true -> validate p <> Ok [].
+Proof. exact literal_unknown_attribute_rejected. Qed.
+Print Assumptions C10_F07_literal_unknown_attribute.
 Theorem C10_F10_duplicate_struct : forall p, has_fault_duplicate_struct p = true -> validate p <> Ok [].
 Proof. exact duplicate_struct_rejected. Qed.
 Print Assumptions C10_F10_duplicate_struct.
@@ -95,6 +103,7 @@ Theorem C10_fault_predicates_inhabited :
   /\ has_fault_undeclared_variable w_f_F04a = true /\ has_fault_undeclared_variable w_f_F04b = true
   /\ has_fault_undeclared_variable w_f_F04f = true
   /\ has_fault_unknown_attribute w_f_F05a = true
+  /\ has_fault_literal_missing_attribute w_f_F06a = true /\ has_fault_literal_unknown_attribute w_f_F07a = true
   /\ has_fault_duplicate_struct w_f_F10a = true /\ has_fault_duplicate_task w_f_F11a = true
   /\ has_fault_duplicate_attribute w_f_F12a = true /\ has_fault_duplicate_task_input w_f_F13a = true
   /\ has_fault_duplicate_call_output w_f_F13b = true
